@@ -102,6 +102,43 @@ PROPS = {
         'assumptions': ['constructors of the primaries replaced by verif_prim (R10): their own panics are outside this unit (Printf::new, glob Pattern::new and the operand parsers are covered by units printfparse, glob/globscan, numeric)', 'argument vectors are shorter than usize::MAX/2', 'dependencies (onig, regex, chrono, uucore, walkdir, clap) do not panic'],
         'not_decided': ['parse_args, do_find, find_main ordering (unit walk)', "run-time I/O errors of actions (out.flush().unwrap())", '-newerXY accepts leading garbage (known finding D20)'],
     },
+    'C09': {
+        'level': 'proof',
+        'explanation': 'SingleExecMatcher::matches (body verbatim after R9 on std::path calls): the child is started with argv = executable followed by every template argument with each {} replaced by the path (./basename under -execdir) and all other text unchanged, one argv element per argument, in the parent directory under -execdir; the action is true exactly when the child exits with status 0; MatcherIO (find\'s exit status, prune, quit) is untouched.',
+        'assumptions': ['std::process::Command: arg appends one element, current_dir sets the directory, status() runs exactly that command line without a shell', 'std::path file_name/parent/join as uninterpreted functions of the path bytes',
+                        'SingleExecMatcher::new splits each argument at {} (adapter chain; str::split): assumed, bounded check planned with Kani'],
+        'not_decided': ['that the action is evaluated once per file at that point of the evaluation is C01 (units logic/parse/walk)'],
+    },
+    'C10': {
+        'level': 'proof',
+        'explanation': 'DeleteMatcher::delete removes exactly the entry\'s own path: rmdir() for a directory that is not a symbolic link (rmdir fails unless it is empty), unlink() for everything else, a symbolic link included (never its target); matches: "." is left alone and true, success is true, a failure is false with exit code 1 and neither quits nor prunes; -delete forces -depth in the parser (unit parse) so the order and selection are those of -depth EXPR -print (C03/C01 obligations).',
+        'assumptions': ['std::fs::remove_dir/remove_file are rmdir(2)/unlink(2) on exactly the given path', 'frame: the only mutating calls in delete.rs are these two (checked textually by the extraction rules, which match them one to one)'],
+        'not_decided': [],
+    },
+    'C02': {
+        'level': 'proof',
+        'explanation': 'process_dir (body verbatim): the walker is configured from Config exactly (contents_first, max_depth, min_depth clamped by walkdir and re-imposed by a depth filter, same_file_system, follow_links iff -L, follow_root_links iff not -P, sorted); every item the walker yields that is (or, for a broken link, becomes) an entry at depth >= mindepth is evaluated exactly once, in order; an Err item sets the exit status to non-zero and the loop goes on; the status is never reset; termination relative to a finite walk; parse_args sets the follow mode from -P/-H/-L; build_matcher_tree writes -maxdepth/-mindepth/-follow into Config (unit parse).',
+        'assumptions': ['walkdir (transcribed from its source): yields each in-range entry once for the configuration it ends up with, reports loops and unreadable entries as Err items, never descends links unless told', 'WalkEntry::from_walkdir turns a not-found error whose path lstats into an entry (entry.rs:221-257, not extracted: closures over walkdir types)'],
+        'not_decided': ['completeness and duplicate-freedom of the walk itself, cycle diagnosis, behaviour on a file system that changes during the walk'],
+    },
+    'C03': {
+        'level': 'proof',
+        'explanation': 'contents_first == depth_first (process_dir), -depth/-d and -delete set depth_first (build_matcher_tree against the reference grammar), PruneMatcher marks exactly directories and is always true, skip_current_dir is called iff the mark is set after that entry and the walk is in pre-order (its precondition: in contents-first order walkdir would pop the parent listing), -sorted installs the byte-wise file-name comparator.',
+        'assumptions': ['walkdir: pre/post order, skip_current_dir pops the directory just yielded (pre-order), sort_by orders siblings'],
+        'not_decided': ['that the complete visit sequence is the reference DFS: walkdir'],
+    },
+    'C18': {
+        'level': 'proof',
+        'explanation': 'parse_args: the starting points are the maximal run of operands after the leading -H/-L/-P/-O flags, in order, each string unchanged, "." when there is none; do_find walks them one after another in that order, each exactly once, keeps the exit status non-zero once a starting point failed and goes on, stops only for -quit; process_dir hands the string unchanged to WalkDir::new.',
+        'assumptions': ['walkdir prefixes every reported path with the root exactly as given'],
+        'not_decided': ['-files0-from splitting (parse_files0_args: adapter chains around file I/O) is not covered'],
+    },
+    'C08': {
+        'level': 'proof',
+        'explanation': 'MultiExecMatcher (real bodies, the RefCell as an opaque cell with per-call transition obligations, R8): matches is always true and puts the path (./basename under -execdir) into exactly one invocation, after the paths already collected: (batches dispatched by the call) ++ (batch still pending) == (pending before) ++ [path]; a batch is dispatched early only when argmax refuses the path, unchanged, under -execdir from the entry\'s directory; run_command turns find\'s exit status non-zero when an invocation fails or cannot start and never resets it; finished_dir flushes and empties an -execdir batch from that directory, finished the -exec batch; process_dir calls finished_dir before leaving a directory and both hooks after the loop, also after -quit, and offers each entry while current_dir is its parent (unit walk); the -exec arm of the parser recognises `{} +` and the single-{} rule (unit parse).',
+        'assumptions': ['argmax::Command::try_arg (Ok: appended and still within the limits it computes; Err: unchanged) and that its accounting implies acceptance by execve', 'RefCell: the value persists between calls and no second borrow is live (syntactic: nothing called while the guard lives reaches self.command)', 'std::path file_name/parent/join uninterpreted'],
+        'not_decided': ['OS acceptance of a batch (argmax), process spawning'],
+    },
 }
 for k in PROPS.values():
     k.setdefault('trusted', [])
